@@ -53,6 +53,11 @@ checks.update({
          "JT808 server and attachment server run together; 1-3 well-behaved sessions carry their full reply oracles while 1-3 hostile connections send random bytes, bit-flipped/truncated/extended frames, valid frames with adversarial header and body fields for every supported ID (counts exceeding items, impossible package numbers, names filling the body, adversarial data-packet names/offsets/lengths), with commands outstanding so malformed responses reach the writer's parsers, with default and parse-everything handlers and the default file handler, closing or resetting at arbitrary points. Any recovered panic is a violation; afterwards a fresh connection to each server must be served. Enumeration: for each baseline every scheduler step once with FIN and once with RST on the hostile connection.",
          "a panic is recorded by the goroutine wrapper instead of killing the process (in production it would); hostile streams are sampled"),
 })
+checks.update({
+ "C03": ("exploration", "5/C03", "deterministic simulation with parse-everything handlers (README pattern) + differential oracle: live receiver/live slice vs fresh receiver/exact-capacity copy",
+         "PARTIAL claim (DESIGN.md section 0). What the simulator decides: on live connections each body is parsed by the per-connection handler object that has already parsed every earlier body of its type, from the connection's real buffers (other traffic behind the slice), under every segmentation; no decoder or String method may panic, and for every delivered message the live result must equal the result of a fresh receiver on an exact-capacity copy (mismatch classified beyond_slice / receiver_history). Bodies come from well-formed, inconsistent-count/length and mutated pools for all 17 terminal message types and five dialects. Not decided: totality over all byte strings (sampled only), jt1078.Decode and the vendor extension parsers unless reached through a registered handler.",
+         "uses the repository against itself on purpose (independence, not correctness of values)"),
+})
 pending = {}
 all_ids = ["C%02d" % i for i in range(1, 21)]
 man = {
